@@ -291,10 +291,33 @@ func e5(w *World, r *Report) {
 	cv := needFn(r, "E-5", w, fref{pkgEVM, "EVMCtrler", "callVM"})
 	if cv != nil {
 		ok := false
-		for _, c := range w.callsTo(cv, fref{pkgEVM, "", "evmMessage"}) {
-			fake, isC := constBool(c.Common().Args[7])
-			ok = isC && fake
+		n := 0
+		// in callVM or in a helper that builds the message for it
+		for _, g := range w.withModuleCallees(cv, 2) {
+			for _, c := range w.callsTo(g, fref{pkgEVM, "", "evmMessage"}) {
+				n++
+				fake, isC := constBool(c.Common().Args[7])
+				if isC && fake {
+					ok = true
+					continue
+				}
+				all := g != cv
+				if all {
+					forms := w.CanonAtCallers(g, c.Common().Args[7])
+					for _, f := range forms {
+						if f != "true" {
+							all = false
+						}
+					}
+					all = all && len(forms) > 0
+				}
+				if !all {
+					ok = false
+					n = -100
+				}
+			}
 		}
+		ok = ok && n > 0
 		r.Check(ok, "E-5", "callVM:fake-message", "the read-only call uses a fake message (no nonce check, no gas purchase)", "the read-only call no longer uses a fake message", fnSite(w, cv))
 	}
 	bb := needFn(r, "E-5", w, fref{pkgEVM, "EVMCtrler", "BeginBlock"})
